@@ -1,5 +1,6 @@
 from .. import common, mir
 from ..rules import c13
+from .. import witness
 
 
 def run(tier, replay=None):
@@ -10,6 +11,7 @@ def run(tier, replay=None):
     for cfg in cfgs:
         c13.run(rep, mir.load(cfg), cfg)
     rep.assumptions = ["layout tables in sa/rules/c13.py transcribe RFC 6330 sections 3.2, 3.3.2, 3.3.3"]
+    witness.run(rep, "C13-R3")
     return rep.finish(
         "proof",
         "Bit-provenance evaluation of the six (de)serialisers: every output bit of serialize and every field bit of "
